@@ -132,9 +132,9 @@ class Candle:
         with optional datetime at the beginning or end."""
         timestamp = None
         if isinstance(candle[0], datetime):
-            timestamp = candle.pop(0)
+            timestamp, candle = candle[0], candle[1:]
         elif isinstance(candle[-1], datetime):
-            timestamp = candle.pop(-1)
+            timestamp, candle = candle[-1], candle[:-1]
 
         return cls(
             open=candle[0],
